@@ -51,6 +51,7 @@ func (vfs *OrefaFS) createFile(parent *node, absPath, fileName string, perm fs.F
 
 // createNode creates a new node (directory or file).
 func (vfs *OrefaFS) createNode(parent *node, absPath, fileName string, mode fs.FileMode) *node {
+	avfs.VerifBeforeLock(&parent.mu, true)
 	parent.mu.Lock()
 	defer parent.mu.Unlock()
 
@@ -72,6 +73,7 @@ func (vfs *OrefaFS) createNode(parent *node, absPath, fileName string, mode fs.F
 
 // fillStatFrom returns a OrefaInfo (implementation of fs.FileInfo) from a dirNode dn named name.
 func (nd *node) fillStatFrom(name string) *OrefaInfo {
+	avfs.VerifBeforeLock(&nd.mu, false)
 	nd.mu.RLock()
 
 	fst := &OrefaInfo{
@@ -168,6 +170,7 @@ func (nd *node) size() int64 {
 
 // Size returns the size of the file.
 func (nd *node) Size() int64 {
+	avfs.VerifBeforeLock(&nd.mu, false)
 	nd.mu.RLock()
 	s := nd.size()
 	nd.mu.RUnlock()
